@@ -93,9 +93,12 @@ func initKeys(t testing.TB) {
 	}
 	p256Key, _ = ecdsa.GenerateKey(elliptic.P256(), rand.Reader)
 	p256Cert = stdCert(t, &p256Key.PublicKey, p256Key, "p256")
-	for i := 0; i < 2; i++ {
+	// CA certificates for the bundles: two with names of their own, a re-issued "ca 0" (same subject, another key and
+	// serial number), and one that happens to carry the subject of the fixed end-entity certificate
+	for i, cn := range []string{"ca 0", "ca 1", "ca 0", "p256"} {
+		_ = i
 		k, _ := ecdsa.GenerateKey(elliptic.P256(), rand.Reader)
-		c := stdCert(t, &k.PublicKey, k, fmt.Sprintf("ca %d", i))
+		c := stdCert(t, &k.PublicKey, k, cn)
 		sc, err := stdx509.ParseCertificate(c.Raw)
 		if err != nil {
 			t.Fatal(err)
@@ -966,8 +969,10 @@ func TestC17_PKCS12(t *testing.T) {
 			wantX, wantY = k.Pub.Affine()
 		}
 		var cas []*stdx509.Certificate
-		nca := rapid.IntRange(0, 2).Draw(t, "ncas")
-		cas = stdCAs[:nca]
+		// (a subset of the four CA certificates in a drawn order: certificates are told apart by their bytes, not by their
+		// names - a renewed CA shares its subject with its predecessor)
+		cas = rapid.SliceOfNDistinct(rapid.SampledFrom(stdCAs), 0, 4, func(c *stdx509.Certificate) string { return string(c.Raw) }).Draw(t, "cas")
+		nca := len(cas)
 		var pfx []byte
 		var err error
 		if p := tryB(func() { pfx, err = pkcs12.Encode(priv, cert, cas, pwd) }); p != nil {
